@@ -16,6 +16,7 @@ class CodeGenModel:
         self.idx = idx
         self.X = XModel(idx, self.hooks)
         self.I = self.X.I
+        self.I.pointer_model = True
         self.atok = idx.enum('hexasm::Token')
         self.ratok = {v: k for k, v in self.atok.items()}
         self.regs = idx.enum('xcmp::Reg')
@@ -518,9 +519,10 @@ def rule_strings(rep, idx):
              'little-endian (at least one word, also for the empty string) and loads the label\'s address into the requested register', floor=12)
     f = idx.func('xcmp::CodeBuffer::genString')
     rep.analysed(f.sig)
-    for text in ('', 'a', 'ab', 'abc', 'abcd', 'hello w'):
+    for text in ('', 'a', 'ab', 'abc', 'abcd', 'hello w', 'sixteen chars ok.', 'twenty-one characters'):
         for reg in ('A', 'B'):
             M = CodeGenModel(idx, reg)
+            M.I.pointer_model = True
             try:
                 M.I.invoke(f, M.cb, [const(32, True, M.regs[reg]), ('str', text)])
             except (NeedSplit, Thrown) as e:
